@@ -285,7 +285,12 @@ def run_kernel(case, tensors, flow, counts=None, abort_at=None, expect=None, hoo
         it = (zc << src) if is_out else src
         if hook is not None:
             hook("loop-begin", {"rank": v, "point": point, "nfibers": len(fibers)})
+        prev_c = None
         for c, p in it:
+            if exp is not None and is_out:
+                if prev_c is not None:
+                    exp["kept"].append(prev_c in zc.coords)
+                prev_c = c
             cnt.steps += 1
             if abort_at is not None and cnt.steps == abort_at:
                 raise BodyAbort(f"body raised at step {cnt.steps}")
@@ -315,6 +320,8 @@ def run_kernel(case, tensors, flow, counts=None, abort_at=None, expect=None, hoo
                 nc[n] = (q, cur[n][1][1:])
             level(i + 1, nc, zn, point + (c,))
         if exp is not None:
+            if is_out and prev_c is not None:
+                exp["kept"].append(prev_c in zc.coords)
             exp["done"] = True
         if hook is not None:
             hook("loop-end", {"rank": v, "point": point, "nfibers": len(fibers)})
@@ -327,7 +334,8 @@ def _expect_loop(expect, v, point, fibers, parts, is_out, style, zc):
     """what the traces of this loop instance must contain (computed from raw coordinate lists)"""
     labels = {}
     base = 0
-    e = {"iter": [], "labels": labels, "done": False, "is_out": is_out, "nf": len(fibers), "style": style}
+    e = {"iter": [], "labels": labels, "done": False, "is_out": is_out, "nf": len(fibers), "style": style,
+         "kept": []}
     seqs = [Seq(presented(f), stored=list(f.coords)) for f in fibers]
     if is_out:
         e["z_before"] = list(zc.coords)
@@ -380,7 +388,10 @@ def _expect_loop(expect, v, point, fibers, parts, is_out, style, zc):
             labels[f"intersect_{lab + 1 + k}"] = s
         top = lead
         if is_out:
-            labels["populate_1"] = lead
+            # the populate's source is the lazy leader-follower result: positions index that sequence
+            lz = Seq(lead.coords)
+            lz.consumed = list(lead.coords)
+            labels["populate_1"] = lz
     e["top"] = top
     expect.setdefault((v, point), []).append(e)
     return e
